@@ -18,11 +18,14 @@ MODULES = {
     "C06": "c06",
     "C16": "c16",
     "C12": "c12",
+    "C13": "c13",
+    "C14": "c14",
     "C15": "c15",
     "C07": "c07",
     "C08": "c08",
     "C20": "c20",
     "C09": "c09",
+    "C18": "c18",
     "C19": "c19",
     "C10": "c10",
     "C11": "c11",
